@@ -48,10 +48,13 @@ type c16Case struct {
 	// ExporterIsTarget: the exporter's address is the mirror target's own address (a collector that also exports,
 	// or a mirror pointed back at a source): the IP source must still be the exporter's
 	ExporterIsTarget bool `json:"exporter_is_target,omitempty"`
+	// MirrorWorkers > 0: the queued datagrams go through the real dispatcher with that many mirror workers sharing
+	// its queue (the collector's default is 5) instead of through a single mirror function
+	MirrorWorkers int `json:"mirror_workers,omitempty"`
 }
 
 const c16Rule = "case = protocol (ipfix | sflow), max-udp-size 64..65507 (biased to 1500; the other protocols' size setting drawn independently), 1..4 workers, IPv4 exporter address in 4-octet or 16-octet form, mirror target 127.x.y.z:port, " +
-	"1..8 datagrams with lengths biased to {0, 1, size-29, size-28, size-27, size-1, size} (valid protocol messages and arbitrary octets); the real worker queues them for mirroring and the real mirror function emits them; " +
+	"1..8 datagrams with lengths biased to {0, 1, size-29, size-28, size-27, size-1, size} (valid protocol messages and arbitrary octets); the real worker queues them for mirroring and the real mirror function emits them — a single one, or (half of the cases) the real dispatcher with 2..8 mirror workers sharing its queue; " +
 	"oracle on the IP packets captured on lo (filtered by the run's own target address and port) = exactly one packet per datagram, version/IHL 0x45, protocol 17, source = exporter, destination = target, " +
 	"IP total length = 28+n = captured length, UDP length = 8+n, destination port = configured, UDP checksum absent (0) or verifying (payloads incl. ones whose checksum needs two end-around carries), payload byte-identical; the driver survives; published payloads with mirroring on == with mirroring off, also when templates were learned under one mirror setting and the data arrives under the other (cache kept), and when a flood of > 1000 datagrams overflows the mirror queue (then only: nothing corrupted, nothing twice); " +
 	"non-trivial = a payload within 28 octets of the maximum, or a 4-octet source address, or an empty payload; distinct by hash"
@@ -136,6 +139,7 @@ func genC16(t *rapid.T, envs map[string]*wire.GenEnv) c16Case {
 	c := c16Case{Proto: rapid.SampledFrom([]string{"ipfix", "sflow"}).Draw(t, "proto")}
 	c.UDPSize = rapid.OneOf(rapid.Just(1500), rapid.SampledFrom([]int{64, 100, 512, 1500, 9000, 65507}), rapid.IntRange(64, 65507)).Draw(t, "udpsize")
 	c.Workers = rapid.IntRange(1, 4).Draw(t, "workers")
+	c.MirrorWorkers = rapid.SampledFrom([]int{0, 0, 0, 2, 5, 5, 8}).Draw(t, "mirrorworkers")
 	if rapid.Bool().Draw(t, "othersize") {
 		c.OtherUDPSize = rapid.SampledFrom([]int{64, 512, 1400, 1500, 9000}).Draw(t, "otherudpsize")
 	}
@@ -290,7 +294,8 @@ func runC16(c *c16Case) (v verdict, sig string, err error) {
 	target := net.IP(c.Target).String()
 	v.label(c.OtherUDPSize > 0 && c.OtherUDPSize < c.UDPSize, "other-protocols-smaller-udp-size")
 	on := drvRequest{Op: "pipeline", Proto: c.Proto, Workers: c.Workers, UDPSize: c.UDPSize, OtherUDPSize: c.OtherUDPSize, ResetCache: true,
-		Mirror: true, MirrorDst: target, MirrorPort: c.Port, Phases: [][]drvDatagram{phase}}
+		Mirror: true, MirrorDst: target, MirrorPort: c.Port, MirrorWorkers: c.MirrorWorkers, Phases: [][]drvDatagram{phase}}
+	v.label(c.MirrorWorkers > 0, "dispatcher-with-several-mirror-workers")
 	// a second phase in the same request draws its receive buffers from the pool the first phase's mirror
 	// copies were returned to: 24 self-contained messages, longer than most of the first phase's payloads
 	var later []wire.Hex
